@@ -231,7 +231,8 @@ Definition rscheduling (s : rstate) : nat :=
 (* ================================================================== *)
 (* PL: Pool                                                             *)
 
-Inductive pop := PGet | PPut | PAdv (d : Z).
+Inductive pop := PGet | PPut | PAdv (d : Z)
+| PGetX.   (* a Get whose create(), if it comes to be called, panics (at once: nobody overlaps it) *)
 Inductive ppc :=
 | PIdle                 (* between calls *)
 | PEnter                (* Get / Put invoked: about to take the pool lock *)
@@ -277,7 +278,12 @@ Fixpoint pdrain (maxage now : Z) (idle : list (nat * Z)) (created : nat) (destro
 
 (* one pass of Get under the lock: returns an idle resource, or counts a new one and calls
    create() WITHOUT releasing the lock (PCreating), or waits *)
-Definition pget (s : pstate) (t : nat) (th : pthread) (sig : nat) : pstate :=
+(* [cp]: create() panics.  Repaired code (/repo e2cd8c7: `item := p.create(); p.created++`,
+   the lock held throughout): the resource is counted only after create() returned, so a
+   panicking create() counts nothing; the deferred Unlock releases the lock and Get panics
+   (result -2): nothing is created, nothing is lost.  (For a create() that returns, counting
+   before or after the call is the same thing: nobody can look in between.) *)
+Definition pget (s : pstate) (t : nat) (th : pthread) (sig : nat) (cp : bool) : pstate :=
   let '(got, idle', created', destroyed') := pdrain (pmaxage s) (pclock s) (pidle s) (pcreated s) (pdestroyed s) in
   match got with
   | Some x =>
@@ -286,6 +292,11 @@ Definition pget (s : pstate) (t : nat) (th : pthread) (sig : nat) : pstate :=
          false
   | None =>
     if Nat.ltb created' (plimit s) then
+      if cp then
+        mkPS (plimit s) (pmaxage s) created' idle' (pclock s) (pnext s) sig destroyed'
+             (upd_nth (pthreads s) t (mkPT PIdle (pscript th) (S (popi th)) (pheld th) (pres th ++ [(-2)%Z])))
+             false
+      else
       mkPS (plimit s) (pmaxage s) (S created') idle' (pclock s) (S (pnext s)) sig destroyed'
            (upd_nth (pthreads s) t (mkPT (PCreating (pnext s)) (pscript th) (popi th) (pnext s :: pheld th) (pres th)))
            true
@@ -294,6 +305,8 @@ Definition pget (s : pstate) (t : nat) (th : pthread) (sig : nat) : pstate :=
            (upd_nth (pthreads s) t (mkPT PWaiting (pscript th) (popi th) (pheld th) (pres th)))
            false
   end.
+
+Definition pcp (o : pop) : bool := match o with PGetX => true | _ => false end.
 
 Definition pstep (s : pstate) (t : nat) : option pstate :=
   match nth_error (pthreads s) t with
@@ -312,7 +325,7 @@ Definition pstep (s : pstate) (t : nat) : option pstate :=
         | [] => Some (same (fin [] (pres th ++ [(-1)%Z])) (plocked s))   (* nothing to put: Put is not called *)
         | _ => Some (same (mkPT PEnter (pscript th) (popi th) (pheld th) (pres th)) (plocked s))
         end
-      | PIdle, PGet => Some (same (mkPT PEnter (pscript th) (popi th) (pheld th) (pres th)) (plocked s))
+      | PIdle, PGet | PIdle, PGetX => Some (same (mkPT PEnter (pscript th) (popi th) (pheld th) (pres th)) (plocked s))
       | PEnter, PPut =>
         if plocked s then None else
         match pheld th with
@@ -322,10 +335,10 @@ Definition pstep (s : pstate) (t : nat) : option pstate :=
                      sig' (pdestroyed s) (upd_nth (pthreads s) t (fin rest (pres th ++ [(-1)%Z]))) false)
         | [] => Some (same (fin [] (pres th ++ [(-1)%Z])) false)
         end
-      | PEnter, _ => if plocked s then None else Some (pget s t th (psig s))
+      | PEnter, _ => if plocked s then None else Some (pget s t th (psig s) (pcp o))
       | PWaiting, _ =>
         if plocked s then None else
-        if Nat.ltb 0 (psig s) then Some (pget s t th (pred (psig s))) else None
+        if Nat.ltb 0 (psig s) then Some (pget s t th (pred (psig s)) (pcp o)) else None
       | PCreating x, _ =>     (* create() returns; Get returns the new resource and unlocks *)
         Some (same (fin (pheld th) (pres th ++ [Z.of_nat x])) false)
       end
